@@ -28,6 +28,7 @@ ALLOW = [
 def run(F, R, ctx):
     _run(F, R, ctx)
     error_span_rule(F, R)
+    reader_per_port_rule(F, R)
 
 
 def _run(F, R, ctx):
@@ -169,3 +170,54 @@ def error_span_rule(F, R):
                    "the text, or a multi-byte one, the reported location lies outside the text / inside a UTF-8 sequence" % (
                        fn.short(), fn.blocks[bad].get("line") if bad is not None else "?"), fn.loc(), sample=True)
     R.floor("C12.e", "error-range stores that use a character's width", n, 1)
+
+
+READER_SCM = "crates/steel-core/src/scheme/modules/reader.scm"
+
+
+def reader_per_port_rule(F, R):
+    from . import sexp, facts as factsmod
+    R.rule("C12.r", "the runtime reader's buffered text belongs to the port it came from (syntax-tree rule over the Scheme library "
+                    "source reader.scm): `read` and `read-syntax-object` select the reader object by the identity of the port "
+                    "they read from — a module-level table (initialised with (hash)) is looked up / extended with the port as "
+                    "key, inside the parameterize that installs the port and before read-impl runs — instead of sharing one "
+                    "module-level reader between all ports. read-impl pulls a whole string/file port into the reader at the "
+                    "first read, so with a shared reader the left-over of one port is returned to reads on another")
+    forms = sexp.load(factsmod.REPO, READER_SCM)
+    defs = sexp.definitions(forms)
+    for need in ("read", "read-syntax-object", "read-impl"):
+        if need not in defs:
+            raise CheckError("anchor lost: %s not defined in %s" % (need, READER_SCM))
+    tables = {n for n, v in defs.items() if sexp.is_form(v, "hash") and len(v) == 1}
+    # selector functions: take a port, and set! a variable from (hash-ref T port) or insert a fresh reader under port
+    selectors = set()
+    for n, v in defs.items():
+        body = sexp.lambda_body(v)
+        if body is None or not isinstance(v[1], list) or not v[1]:
+            continue
+        params = {str(x) for x in v[1]}
+        uses_table = False
+        for f in sexp.walk(v):
+            if sexp.is_form(f) and str(f[0]) in ("hash-ref", "hash-try-get", "hash-get", "hash-insert", "hash-contains?") and \
+                    len(f) >= 3 and str(f[1]) in tables and str(f[2]) in params:
+                uses_table = True
+        sets = any(sexp.is_form(f, "set!") for f in sexp.walk(v))
+        if uses_table and sets:
+            selectors.add(n)
+    where = lambda x: "%s:%s" % (READER_SCM, getattr(x, "line", 0))
+    for entry in ("read", "read-syntax-object"):
+        fn = defs[entry]
+        ok = False
+        for f in sexp.walk(fn):
+            if sexp.is_form(f, "parameterize") and len(f) >= 3:
+                order = sexp.seq_order(f[2:])
+                sel = [i for i, c in enumerate(order) if str(c[0]) in selectors and any(
+                    sexp.is_form(a, "current-input-port") or (isinstance(a, str) and a in ("port",)) for a in c[1:])]
+                imp = [i for i, c in enumerate(order) if str(c[0]) == "read-impl"]
+                if sel and imp and sel[0] < imp[0]:
+                    ok = True
+        R.inst("C12.r", "%s selects its reader by the port before reading" % entry, ok and bool(tables),
+               "reader.scm: %s does not pick the reader object by the port it reads from (no per-port table lookup before "
+               "read-impl): text buffered from one port is returned by reads on another — after (read (open-input-string "
+               "\"hello world\")), (read (open-input-string \"(1 2 3)\")) returns world — and an unclosed form on one port "
+               "makes every later read return eof" % entry, where(fn), sample={"tables": sorted(tables), "selectors": sorted(selectors)})
